@@ -671,23 +671,7 @@ class ZStr(Sym):
     def split(self, sep=None, maxsplit=-1):
         if sep is None or not isinstance(sep, str) or len(sep) == 0:
             raise Unsupported("ZStr.split(%r)" % (sep,))
-        out = []
-        cur = self.t
-        n = 0
-        # bounded: at most 3 separators are distinguished; more -> Unsupported
-        while True:
-            if maxsplit >= 0 and n >= maxsplit:
-                break
-            i = z3.IndexOf(cur, zstr_lit(sep), 0)
-            if core.CTX.branch(i < 0):
-                break
-            out.append(ZStr(S(z3.SubString(cur, 0, i))))
-            cur = S(z3.SubString(cur, i + len(sep), z3.Length(cur)))
-            n += 1
-            if n > 3:
-                raise Unsupported("ZStr.split: more than 3 separators")
-        out.append(ZStr(cur))
-        return out
+        return ZSplit(self, sep, maxsplit)
 
     def startswith(self, p):
         return SymBool(z3.PrefixOf(ZStr.term(p), self.t))
@@ -738,6 +722,51 @@ class ZStr(Sym):
 
     def __format__(self, spec):
         return "<sym>"
+
+
+class ZSplit(object):
+    """lazy result of ZStr.split(sep): element 0 and -1 need no fork; other accesses fork on the number of separators
+    (bounded by 3, more is Unsupported)"""
+
+    def __init__(self, z, sep, maxsplit=-1):
+        self.z, self.sep, self.maxsplit = z, sep, maxsplit
+        self._parts = None
+
+    def _first(self):
+        s = self.z.t
+        i = z3.IndexOf(s, zstr_lit(self.sep), 0)
+        return ZStr(S(z3.If(i < 0, s, z3.SubString(s, 0, i))))
+
+    def _all(self):
+        if self._parts is None:
+            out = []
+            cur = self.z.t
+            n = 0
+            while True:
+                if self.maxsplit >= 0 and n >= self.maxsplit:
+                    break
+                i = z3.IndexOf(cur, zstr_lit(self.sep), 0)
+                if core.CTX.branch(i < 0):
+                    break
+                out.append(ZStr(S(z3.SubString(cur, 0, i))))
+                cur = S(z3.SubString(cur, i + len(self.sep), z3.Length(cur)))
+                n += 1
+                if n > 3:
+                    raise Unsupported("ZStr.split: more than 3 separators")
+            out.append(ZStr(cur))
+            self._parts = out
+        return self._parts
+
+    def __getitem__(self, k):
+        if isinstance(k, int) and k == 0 and self.maxsplit != 0:
+            return self._first()
+        return self._all()[k]
+
+    def __len__(self):
+        return len(self._all())
+
+    def __iter__(self):
+        return iter(self._all())
 
 
 class ZBytes(Sym):
